@@ -31,8 +31,10 @@ def run_property(pid, tier, seed, source=None, quiet=False, with_controls=True):
         if hasattr(mod, "controls"):
             mod.controls(ctx)
     mod.run(ctx)
-    if with_controls and tier == "thorough" and source is None:
-        # both-ways self-test of this property's checker against the current tree (in memory); reported, not gating
+    if with_controls and tier == "thorough" and source is None and os.environ.get("VERIF_SELFTEST") == "1":
+        # both-ways self-test of this property's checker against the current tree (in memory); reported, not gating.  Since the
+        # history engines it costs minutes per property, so it is opt-in (VERIF_SELFTEST=1) or run for everything at once with
+        # `python -m sa.selftest` (last full result: seeded/selftest_result.json)
         try:
             from . import selftest
             st = selftest.run(src=ctx.src, only=pid)
